@@ -256,6 +256,9 @@ func (w *World) installProbes() error {
 		elpsutil.Function("cur-pkg", lisp.Formals(), w.bCurPkg),
 		elpsutil.Function("mark", lisp.Formals("id"), w.bMark),
 	)
+	// the same cooperative fault point as a host-registered SPECIAL OPERATOR:
+	// (sim:fpo id expr) decides first, then evaluates expr
+	env.AddSpecialOps(true, elpsutil.Function("fpo", lisp.Formals("id", "expr"), w.bFPO))
 	return nil
 }
 
@@ -329,6 +332,19 @@ func (w *World) bFP(env *lisp.LEnv, args *lisp.LVal) *lisp.LVal {
 		}
 	}
 	return args.Cells[1]
+}
+
+func (w *World) bFPO(env *lisp.LEnv, args *lisp.LVal) *lisp.LVal {
+	idv := args.Cells[0]
+	if idv.Type != lisp.LInt {
+		return env.Errorf("sim:fpo: id is not an int literal")
+	}
+	// decide like sim:fp, with a placeholder value, then evaluate the form
+	r := w.bFP(env, lisp.SExpr([]*lisp.LVal{idv, lisp.Nil()}))
+	if r == nil || r.Type == lisp.LError {
+		return r
+	}
+	return env.Eval(args.Cells[1])
 }
 
 func faultDatum(d string) *lisp.LVal {
